@@ -60,11 +60,15 @@ func (f *Subseq) Call(s *slip.Scope, args slip.List, depth int) (result slip.Obj
 		ra := []rune(ta)
 		result = slip.String(ra[start:end])
 	case *slip.Vector:
-		elements := ta.AsList()[start:end]
+		// Always new elements. A re-slice would share the backing array
+		// with the argument.
+		elements := make(slip.List, end-start)
+		copy(elements, ta.AsList()[start:end])
 		result = slip.NewVector(len(elements), ta.ElementType(), nil, elements, ta.Adjustable())
 	case slip.Octets:
-		ba := []byte(ta)
-		result = slip.Octets(ba[start:end])
+		ba := make([]byte, end-start)
+		copy(ba, ta[start:end])
+		result = slip.Octets(ba)
 	case *slip.BitVector:
 		cnt := end - start
 		bv := slip.BitVector{
@@ -148,6 +152,11 @@ func (f *Subseq) getArgs(s *slip.Scope, args slip.List, depth int) (start, end i
 		}
 	}
 	switch ta := args[0].(type) {
+	case nil:
+		if 0 < start || 0 < end {
+			slip.ErrorPanic(s, depth, "indices %d and %d are out of bounds for list of length 0", start, end)
+		}
+		start, end = 0, 0
 	case slip.List:
 		if end < 0 {
 			end = len(ta)
@@ -166,7 +175,7 @@ func (f *Subseq) getArgs(s *slip.Scope, args slip.List, depth int) (start, end i
 		}
 		seq = ta
 	case *slip.Vector:
-		size := ta.Length()
+		size := len(ta.AsList()) // up to the fill pointer
 		if end < 0 {
 			end = size
 		}
